@@ -137,6 +137,16 @@ func Structural(g *prng.Rng, frame []byte, f *ref.Frame, other []byte, fo *ref.F
 			add("block-swap", r)
 		}
 	}
+	// insert a special 4-byte word at every block boundary (before each block, before the end mark)
+	for _, w := range []uint32{ref.MagicLegacy, ref.MagicFrame, ref.MagicSkip, 0x80000000, 0} {
+		var word [4]byte
+		binary.LittleEndian.PutUint32(word[:], w)
+		for i := 0; i <= n; i++ {
+			r := append(append(append([]rec{}, recs[:i]...), rec{word[:]}), recs[i:]...)
+			m := join(h, r, tr)
+			out = append(out, Mutant{m, fmt.Sprintf("word-insert-%08x", w), ""})
+		}
+	}
 	if fo != nil && !fo.Legacy && len(fo.Blocks) > 0 {
 		_, orecs, _ := records(other, fo)
 		for k := 0; k < 3; k++ {
